@@ -38,8 +38,8 @@ T = "MetadorModel.C11."
 LEAN = dict(
     modules=["MetadorModel.Props.C11"],
     theorems=[T + n for n in [
-        "crash_frame", "crash_committed_opens", "crash_trichotomy", "torn_classified", "torn_create_classified",
-        "reach_complete"]],
+        "crash_frame", "crash_committed_opens", "torn_create_classified", "torn_classified", "reach_newfile",
+        "crash_trichotomy", "uncommitted_recognisable", "committed_state_verified"]],
     drivers=["drv_chn"],
 )
 
@@ -387,7 +387,7 @@ rng = random.Random(%(seed)d)
 base = %(base)r
 j = open(%(journal)r, "a")
 def log(**kw):
-    j.write(json.dumps(kw) + "\n"); j.flush(); os.fsync(j.fileno())
+    j.write(json.dumps(kw) + "\n"); j.flush()   # reaches the kernel: survives SIGKILL
 r = cls(base, "w")
 log(ev="ready")
 n = 0
